@@ -17,7 +17,7 @@ from lib.vlib import Inconclusive
 ALL_CMDS = ["dispatch", "delete", "delunknown", "join", "joinbroken", "joinarmed", "leave", "fail", "disconnect", "take", "takeempty",
             "gate", "release"]
 BUF = 100       # events a socket listener buffers (make(chan ..., 100) in socketv1/v2_controller.go)
-UNKNOWN = 99    # GenHub!UnknownId
+UNKNOWN = 9999    # GenHub!UnknownId
 
 GEN_CFG = """SPECIFICATION GSpec
 CONSTANTS
@@ -137,7 +137,7 @@ def full_buffer_scenarios():
                     return r
                 j = [{"c": "join", "slot": 1, "kind": kind, "filter": flt, "broken": False, "armed": False},
                      {"c": "join", "slot": 2, "kind": "mock", "filter": "", "broken": False, "armed": False},
-                     {"c": "join", "slot": 3, "kind": "v2", "filter": "", "broken": False, "armed": False}]
+                     {"c": "join", "slot": 3, "kind": "v2", "filter": "b", "broken": False, "armed": False}]
                 # (1) the client disconnects with a full buffer: the hub must go on serving the others
                 out.append({"n": n, "steps": j + disp(BUF) + [{"c": "disconnect", "slot": 1, "k": BUF}] + disp(1, "b") + disp(4), "_what": "disconnect-full"})
                 nid[0] = 0
